@@ -36,12 +36,21 @@ const (
 	BPanicSlice
 	BPanicSliceError
 	BPanicMap
+	BErrorNil
+	BFatalNil
+	BOtherFailNow
+	BOtherRequire
 	NumBehaviours
 )
 
+// OtherHandle, when set, is the handle the BOther* behaviours act on (typically the one captured in setup);
+// when nil they act on the function's own handle.
+var OtherHandle atomic.Pointer[f1testing.T]
+
 var BehaviourNames = []string{"pass", "Fail", "FailNow", "Error", "Errorf", "Fatal", "Fatalf", "assert", "require",
 	"panic(error)", "panic(string)", "panic(int)", "panic(struct)", "nil-map-write", "index-out-of-range", "nil-deref",
-	"panic(error-with-permissive-Is)", "panic(nil)", "panic(error-named-FailNow)", "panic([]int)", "panic(slice-typed error)", "panic(map)"}
+	"panic(error-with-permissive-Is)", "panic(nil)", "panic(error-named-FailNow)", "panic([]int)", "panic(slice-typed error)", "panic(map)",
+	"Error(nil)", "Fatal(nil)", "FailNow-on-the-setup-handle", "require-on-the-setup-handle"}
 
 // Stops reports whether the behaviour ends the function at that point.
 func Stops(kind int) bool {
@@ -121,6 +130,22 @@ func Behave(t *f1testing.T, kind int) {
 		panic(sliceErr{"a", "b"})
 	case BPanicMap:
 		panic(map[string]int{"a": 1})
+	case BErrorNil:
+		// Error dereferences its argument: a nil error panics inside the call, which stops and fails the function
+		t.Error(nil)
+	case BFatalNil:
+		t.Fatal(nil)
+	case BOtherFailNow:
+		// a stopping failure raised through another handle still stops and fails the function it is raised in
+		if o := OtherHandle.Load(); o != nil {
+			o.FailNow()
+		}
+		t.FailNow()
+	case BOtherRequire:
+		if o := OtherHandle.Load(); o != nil {
+			o.Require().True(false, "planned failed require on the other handle")
+		}
+		t.Require().True(false, "planned failed require")
 	default:
 		panic(fmt.Sprintf("harness: unknown behaviour %d", kind))
 	}
